@@ -31,7 +31,7 @@
    of the harness in the thorough tier, not proved.  FIFO per producer-consumer pair holds only
    without processIf/processUntil put-back (see DESIGN.md, P10). *)
 From Coq Require Import List Arith NArith ZArith Bool Permutation.
-From EV Require Import QConc QConcProofs QConcInv.
+From EV Require Import QConc QConcProofs QConcInv QConcWake QConcFuel.
 Import ListNotations.
 
 Theorem C06_every_event_in_exactly_one_place : forall progs schedule fuel,
@@ -74,6 +74,31 @@ Example C06_example :
   length (filter (fun a => match a with CDisp _ _ _ | CTaken _ _ _ | CDrained _ _ => true | _ => false end)
                  (qc_run_case 400 progs sched)) = 2.
 Proof. vm_compute. repeat split; reflexivity. Qed.
+
+(* LAST CLAUSE: no call deadlocks.  In every reachable configuration of every program under every schedule, whenever a
+   thread is inside a call and not parked in wait / waitFor, some thread can run: that thread, or the owner of the
+   mutex it waits for — which never itself waits for a mutex (no nested locks; QConcWake.v, QConcFuel.v) *)
+Theorem C06_no_call_deadlocks : forall progs schedule n u th,
+  let cfg := run_sched n (mkCfg sh0 (start_threads progs) schedule false) in
+  nth_error (ths cfg) u = Some th -> status th = TRun -> code th <> [] ->
+  exists v, th_enabled cfg v = true.
+Proof.
+  intros progs schedule n u th cfg. apply no_mutex_deadlock. apply wake_invariant_unconditional.
+Qed.
+Print Assumptions C06_no_call_deadlocks.
+
+(* ORDERING CLAUSE — REFUTED in the presence of another thread's processIf / processUntil (known finding P10).
+   Thread 0 enqueues 11, 13, 15.  Thread 1 calls processIf with a predicate that declines everything: it takes 11 and 13
+   out of the queue, evaluates, and puts them back.  Thread 2 — the only thread that consumes anything — calls
+   process() in between and receives 15 first, then 11 and 13.  The same schedule on the real EventQueue gives the
+   same trace (corpus/qconc/p10_fifo_foreign_putback.case). *)
+Definition p10_schedule : list nat :=
+  [0; 0; 0; 0; 0; 0; 0; 0; 0; 0; 0; 0; 0; 1; 1; 1; 1; 1; 0; 0; 0; 0; 0; 0; 2; 2; 2; 2; 2; 2; 2; 2;
+   1; 1; 1; 1; 1; 1; 1; 1; 1; 1; 2; 2; 2; 2; 2; 2; 2; 2; 2; 2; 2; 2].
+Theorem C06_order_across_foreign_putback_refuted :
+  let tr := qc_run_case 400 [[AEnqueue 1 11%Z; AEnqueue 1 13%Z; AEnqueue 1 15%Z]; [AProcessIf 0]; [AProcess; AProcess]] p10_schedule in
+  flat_map (fun a => match a with CDisp t _ v => [(t, v)] | _ => [] end) tr = [(2, 15%Z); (2, 11%Z); (2, 13%Z)].
+Proof. vm_compute. reflexivity. Qed.
 
 (* Lock scopes of the real header (tie A, tools/leaves/locks.py): the only accesses to queueList /
    freeList outside a named guard on their mutex are the deliberate `.empty()` pre-checks — one per
